@@ -194,3 +194,72 @@ Section Example.
       + left. exists j1. split; [right; left; reflexivity|reflexivity].
   Qed.
 End Example.
+
+(* The chain of path secrets as the code produces it: PathSecretGenerator::next_secret as
+   translated from tree_kem/path_secret.rs, called once per non-filtered node of the path and once
+   more for the commit secret - by the committer from a fresh generator (encap), by a receiver from
+   `starting_with(the secret it decrypted)` (decap, and a joiner's update_secrets).  It computes the
+   chains of Model/KemSecrets.v with derive := DeriveSecret(., "path"), so the agreement theorems
+   above hold of the translated generator; the commit secret of a path-less commit is the
+   translated PathSecret::empty. *)
+Section PathSecrets.
+  Variable H : hash_alg.
+
+  Definition path_derive (s : list N) : list N := kdf_derive_secret H s [112;97;116;104].
+
+  Fixpoint chain_gen (flt : list bool) (g : psgen) (random : list N) : list (option (list N)) * list N :=
+    match flt with
+    | [] => ([], fst (gen_next_secret H g random))
+    | true :: r => let '(ns, cs) := chain_gen r g random in (None :: ns, cs)
+    | false :: r => let '(s, g') := gen_next_secret H g random in
+                    let '(ns, cs) := chain_gen r g' random in (Some s :: ns, cs)
+    end.
+
+  Lemma chain_gen_running flt : forall x random,
+    chain_gen flt {| pg_last := Some x; pg_start := None |} random = committer_chain (list N) path_derive flt (path_derive x).
+  Proof.
+    induction flt as [|f r IH]; intros x random; [reflexivity|].
+    destruct f; cbn [chain_gen committer_chain].
+    - rewrite IH. reflexivity.
+    - cbn [gen_next_secret pg_start pg_last]. rewrite IH. reflexivity.
+  Qed.
+
+  (* the committer: a fresh generator, the first secret is random *)
+  Theorem generator_chain_of_the_committer flt random :
+    chain_gen flt psgen_new random = committer_chain (list N) path_derive flt random.
+  Proof.
+    induction flt as [|f r IH]; [reflexivity|].
+    destruct f; cbn [chain_gen committer_chain].
+    - rewrite IH. reflexivity.
+    - unfold psgen_new. cbn [gen_next_secret pg_start pg_last]. rewrite chain_gen_running. reflexivity.
+  Qed.
+
+  (* a receiver or joiner: starts with the secret it was sent, never draws a random one *)
+  Theorem generator_chain_of_a_receiver flt s random :
+    chain_gen flt (psgen_starting_with s) random = receiver_chain (list N) path_derive flt s.
+  Proof.
+    unfold receiver_chain. induction flt as [|f r IH]; [reflexivity|].
+    destruct f; cbn [chain_gen committer_chain].
+    - rewrite IH. reflexivity.
+    - unfold psgen_starting_with. cbn [gen_next_secret pg_start pg_last]. rewrite chain_gen_running. reflexivity.
+  Qed.
+
+  (* so: whoever starts the translated generator at a non-filtered level k with the committer's
+     secret of that level ends in the commit secret the committer's generator ends in *)
+  Theorem generator_receiver_reaches_the_committers_commit_secret flt r k s random' :
+    nth k flt true = false ->
+    secret_at (list N) (fst (chain_gen flt psgen_new r)) k = Some s ->
+    snd (chain_gen (skipn k flt) (psgen_starting_with s) random') = snd (chain_gen flt psgen_new r).
+  Proof.
+    intros Hf Hs. rewrite generator_chain_of_a_receiver. rewrite generator_chain_of_the_committer in *.
+    rewrite (receiver_reaches_commit_secret (list N) path_derive flt r k s Hf Hs). reflexivity.
+  Qed.
+
+  Theorem translated_generator_chains flt s random :
+    chain_gen flt psgen_new random = committer_chain (list N) path_derive flt random /\
+    chain_gen flt (psgen_starting_with s) random = receiver_chain (list N) path_derive flt s.
+  Proof. split; [apply generator_chain_of_the_committer|apply generator_chain_of_a_receiver]. Qed.
+
+  Theorem empty_path_secret_is_zeros : gen_path_secret_empty H = zeros H.
+  Proof. reflexivity. Qed.
+End PathSecrets.
